@@ -51,6 +51,48 @@ def float_prop(has_min: bool, mn: int, has_max: bool, mx: int, v: int, half: boo
     return inrange and out == x and hc is False
 
 
+FLOAT_VALS = [float("inf"), float("-inf"), float("nan"), "inf", "nan", "Infinity", "-Infinity", "1e999", 1.7976931348623157e308, 5e-324, -0.0, 0, "1.5", " 2 ", "1_0", 10 ** 400, True,
+              None, [], "x", 12345678901234567890]
+NFV = len(FLOAT_VALS)
+FLOAT_SITES = [(lambda v: stix2.v20.WindowsPESection(name="a", entropy=v), "entropy"), (lambda v: stix2.v21.WindowsPESection(name="a", entropy=v), "entropy"),
+               (lambda v: stix2.v21.Location(latitude=v, longitude=1.0), "latitude"), (lambda v: stix2.v21.Location(latitude=1, longitude=2, precision=v), "precision")]
+
+
+def float_values(vi: int, bounded: int) -> bool:
+    """
+    pre: 0 <= vi < NFV and 0 <= bounded <= 5
+    post: _
+    """
+    import math
+    vi, bounded = pick(vi, NFV), pick(bounded, 6)
+    v = FLOAT_VALS[vi]
+    with Native():
+        if bounded < 2:
+            prop = P.FloatProperty(min=-1e300 if bounded else None, max=1e300 if bounded else None)
+            try:
+                out, hc = prop.clean(v)
+                ok = isinstance(out, float) and math.isfinite(out) and hc is False and json.loads(json.dumps(out)) == out
+            except ValueError:
+                ok = True
+            # every JSON number that is a finite double is accepted
+            if not bounded and isinstance(v, (int, float)) and not isinstance(v, bool) and abs(v) <= 1.7976931348623157e308:
+                ok = ok and prop.clean(v)[0] == float(v)
+        else:
+            build, name = FLOAT_SITES[bounded - 2]
+            try:
+                o = build(v)
+            except (STIXError, ValueError, TypeError):
+                o = None
+            ok = True
+            if o is not None and name in o:
+                text = o.serialize()                      # whatever was accepted can be written, is a JSON number, and reads back equal
+                back = stix2.parse(text, version="2.1") if bounded > 3 else None
+                got = json.loads(text)[name]
+                ok = isinstance(got, (int, float)) and math.isfinite(got) and (back is None or back == o)
+    V.reached()
+    return ok
+
+
 BOOL_LITS = ["true", "True", "TRUE", "t", "T", "1", "false", "False", "f", "F", "0", "yes", "", "2", "tr", "nope"]
 
 
